@@ -119,15 +119,11 @@ def runWrite (c : Case) : Except Fault Written :=
     match newEncoder sfs with
     | .error f => .error f
     | .ok e =>
-      let (rows, res) := c.recs.foldl (fun (acc : List (Shape UInt64 × List Bytes) × List WRes) r =>
-        let (rows, w) := encodeS ptEqBits e acc.1 (fieldGeom e.geomKind r.1) r.2
-        (rows, acc.2 ++ [w])) ([], [])
+      let (rows, res) := writeAllS ptEqBits e (c.recs.map fun r => (fieldGeom e.geomKind r.1, r.2))
       .ok ⟨⟨e.shpType, e.fields, rows⟩, res⟩
   | .f t ffs =>
     let fields := ffs.map fun f => (⟨name11 f.name, f.typ, f.size, f.prec⟩ : Field)
-    let (rows, res) := c.recs.foldl (fun (acc : List (Shape UInt64 × List Bytes) × List WRes) r =>
-      let (rows, w) := encodeF ptEqBits fields acc.1 r.1 r.2
-      (rows, acc.2 ++ [w])) ([], [])
+    let (rows, res) := writeAllF ptEqBits fields c.recs
     .ok ⟨⟨t, fields, rows⟩, res⟩
 
 def runRead (c : Case) (f : FileM UInt64) : ReadRes UInt64 :=
